@@ -71,6 +71,17 @@ def generate(rng, tier, index):
         a = [i for i in range(3) if paired[i]][0]
         faces[f"min_{'xyz'[a]}"] = {"kind": "bloch"}
         faces[f"max_{'xyz'[a]}"] = {"kind": "bloch"}
+    # one wrap axis in five is a single cell long (the quasi-2D / conical-incidence set-up): its two ghost cells are the cell itself
+    for a, ax in enumerate("xyz"):
+        if paired[a] and rng.uniform() < 0.2:
+            shp[a] = 1
+    # half of the scenes build their boundaries through the documented BoundaryConfig path (needs a boundary on every face:
+    # open faces become PEC walls there); a plain periodic axis must stay unshifted next to a Bloch axis with k != 0
+    via_config = bool(rng.uniform() < 0.5)
+    if via_config:
+        for f_ in faces:
+            if faces[f_]["kind"] == "none":
+                faces[f_] = {"kind": "pec"}
     s = specgen.SPACING
     grid = {"kind": "uniform", "spacing": s}
     u = rng.uniform()
@@ -83,9 +94,12 @@ def generate(rng, tier, index):
             e = np.concatenate([[0.0], np.cumsum(w)])
             edges.append([float(x) for x in e - e[-1] / 2])
         grid = {"kind": "rect", "edges": edges}
-    spec = {"shape": shp, "grid": grid, "steps": T, "faces": faces, "key": int(rng.integers(0, 2**31)), "tile": tile, "sources": []}
+    spec = {"shape": shp, "grid": grid, "steps": T, "faces": faces, "key": int(rng.integers(0, 2**31)), "tile": tile, "sources": [], "faces_via_config": via_config}
     if bloch_run:
         spec["bloch_vector"] = [float(rng.uniform(-2, 2) * np.pi / cell_lengths(spec)[a]) if faces[f"min_{ax}"]["kind"] == "bloch" else 0.0 for a, ax in enumerate("xyz")]
+    if bloch_run and via_config:
+        # the vector handed to BoundaryConfig also has (irrelevant) components along the non-Bloch axes
+        spec["bloch_vector_config"] = [k if faces[f"min_{ax}"]["kind"] == "bloch" else float(rng.uniform(0.5, 2) * np.pi / cell_lengths(spec)[a]) for a, (ax, k) in enumerate(zip("xyz", spec["bloch_vector"]))]
     full = [[0, n] for n in shp]
     dets = [{"kind": "energy", "name": "d_energy", "box": full, "reduce": True, "exact": bool(rng.uniform() < 0.5)}]
     if bloch_run:
@@ -133,6 +147,8 @@ def shrink(spec):
                 s["grid"]["edges"][a] = [float(x) for x in (np.arange(n + 1) - n / 2) * specgen.SPACING]
                 if "bloch_vector" in s:
                     s["bloch_vector"][a] = spec["bloch_vector"][a] * cell_lengths(spec)[a] / (n * specgen.SPACING)
+                    if "bloch_vector_config" in s and spec["faces"][f"min_{'xyz'[a]}"]["kind"] == "bloch":
+                        s["bloch_vector_config"][a] = s["bloch_vector"][a]
                 out.append(s)
         if not any(np.ptp(w) > 0 for w in cell_widths(spec)):
             s = copy.deepcopy(spec)
